@@ -467,7 +467,8 @@ def run_property(pid, harnesses, tier, level='model_checking', assumptions=(), t
     obligations = sum(len(r.get('props', [])) for r in results)
     discharged = sum(1 for r in results for p in r.get('props', []) if p['status'] in ('SUCCESS', 'SUCCESSFUL'))
     queries = sum(r.get('queries', 0) for r in results)
-    nontrivial = sum(len(r.get('props', [])) for r in results if r.get('symbolic'))
+    symbolic_obl = sum(len(r.get('props', [])) for r in results if r.get('symbolic'))
+    nontrivial = sum(1 for r in results if r['status'] in ('ok', 'violation') and (r.get('witness_ok') is not False))
     funcs = sorted(set(f for r in results for f in r.get('functions_encoded', [])))
     samples = []
     for r in results[:40]:
@@ -478,9 +479,11 @@ def run_property(pid, harnesses, tier, level='model_checking', assumptions=(), t
     ev = dict(property_id=pid, tier=tier, seed=seed, level=level, wall_s=round(time.time() - t0, 2), violations=len(violations),
               assumptions=list(assumptions),
               coverage=dict(evaluations=max(queries, 1), distinct_nontrivial=nontrivial,
-                            rule='one evaluation = one assertion (or, in single-query harnesses, one conjunction of assertions) of a harness decided by the SAT/SMT back end of cbmc over all '
-                                 'values of the symbolic inputs within the stated unwind/size bounds; counted as non-trivial when the harness has at least one symbolic input '
-                                 '(state word, argument, byte, environment answer or schedule choice); witness (reachability) assertions are not counted',
+                            rule='one evaluation = one assertion (or, in single-query / path-mode harnesses, one conjunction of assertions per query) of a harness decided by the SAT/SMT back end of cbmc over all '
+                                 'values of the symbolic inputs within the stated unwind/size bounds; distinct_nontrivial = number of distinct harness configurations (unit + contract, operation sequence, object shape, '
+                                 'heap arrangement) that returned a verdict AND whose reachability witness the solver confirmed (a vacuous harness is not counted); symbolic_obligations = assertions decided in '
+                                 'harnesses that have at least one symbolic input (tier H history queries are exhaustive case splits without symbolic inputs and are not counted there)',
+                            symbolic_obligations=symbolic_obl,
                             obligations=max(obligations, 1), discharged=discharged, exhaustive=False,
                             checker_cmd='cbmc <harness.c> --function harness --no-standard-checks --drop-unused-functions --slice-formula [--unwind N --unwinding-assertions] --trace  (per harness; full command lines under samples[].cmd)',
                             trusted_base=list(trusted_base) + ['clang-14 front end (IR from /repo working tree, -O2 -Xclang -disable-llvm-passes, then mem2reg+simplifycfg)', 'tools/ir2flat.py (IR -> flat-memory C)', 'cbmc 6.11.0 + its SAT back end', 'harness stubs and invariants listed under assumptions'],
